@@ -171,7 +171,7 @@ def harnesses(tier):
         Harness('c16.export_symbolic_allowlist', export_scenario(2 if q else 3), twin=export_scenario(1, planted=True),
                 bounds={'allow-list': 'None, or set-like with 0-3 patterns; exact membership and match matrix symbolic', 'data points': '1-2' if q else '1-3',
                         'kinds': 'counter gauge up-down histogram', 'histogram lengths': 'counts 0-4 x bounds 0-4'},
-                functions=fn, stubs=stubs, assumptions=assume, budget_s=600),
+                functions=fn, stubs=stubs, assumptions=assume, budget_s=600 if q else 2400),
         Harness('c16.config', config_scenario, bounds={'environments': len(ENVS), 'metric names': len(METRIC_NAMES), 'kinds': 'counter gauge histogram'}, functions=fn, stubs=['capturing lineage object'],
                 assumptions=assume, budget_s=120),
     ]
